@@ -8,10 +8,10 @@ property count.  Direct monitor of the property on the same kind of runs (harnes
 from .. import refine, runs
 
 MODULE = 'PyhmsVerif.Props.C01Stored'
-THEOREMS = ['C01.C01_run', 'C01.step_logInBox', 'C01.rejection_inBox', 'C01.repaired_inBox', 'C17.repair_inBox', 'C01.C01_stored_in_box', 'EngineDE.deGen_trials_inBox', 'EngineDE.shadeGen_trials_inBox', 'EngineSEA.seaOffspring_inBox', 'EngineDE.shadeGen_archive']
-EXTRA_MODULES = ['PyhmsVerif.Props.EngineDE', 'PyhmsVerif.Props.EngineSEA']
+THEOREMS = ['C01.C01_run', 'C01.step_logInBox', 'C01.rejection_inBox', 'C01.repaired_inBox', 'C17.repair_inBox', 'C01.C01_stored_in_box', 'EngineDE.deGen_trials_inBox', 'EngineDE.shadeGen_trials_inBox', 'EngineSEA.seaOffspring_inBox', 'EngineDE.shadeGen_archive', 'C01Affine.affine_inBox', 'C01Affine.ideal_laws']
+EXTRA_MODULES = ['PyhmsVerif.Props.EngineDE', 'PyhmsVerif.Props.EngineSEA', 'PyhmsVerif.Props.C01Affine']
 LEVEL = 'proof'
-LEVEL_TEXT = 'Theorem: in every state reachable in the tree model every objective invocation lies in its level box (all configs, engines, seeds, event sequences); kernel theorems: apply_bounds result in box for every input and rounding function, rejection loop returns only in-box points. Tie: trace refinement (the model rejects an out-of-box invocation at that event) + bit-exact apply_bounds correspondence (C17) + direct monitor of all invocations, stored genomes and seeds. NEW: C01_stored_in_box — in every reachable state every stored individual that was obtained from the objective lies inside the box of its deme level (it is backed by a logged invocation, C02_stored_is_objective_value, and every logged invocation is in the box, C01_run); the only other stored individuals are sentinel carriers of refused requests and a local deme starting point (its seed). ENGINE LEVEL (Model/Engine.lean, Props/EngineDE.lean): one whole generation of DE.run / SHADE.run is in the model, deterministic given the generator draws (donor arithmetic in binary64, reflect repair, crossover mask incl. the row-zeroing quirk, fitness carry-over, which rows are evaluated, replacement), and is diffed bit-exactly against the real engines with recorded draws: deGen_trials_inBox / shadeGen_trials_inBox — parents inside the box imply every trial genome inside the box, for all draws, scaling factors, crossover probabilities, archives and rounding functions (no EnvBox assumption for DE / SHADE). SEA FAMILY (Engine.seaOffspring, Props/EngineSEA.lean): one pass of the variational pipeline (tournament = first best contestant, arithmetic crossover in binary64, Gaussian mutation with toroidal repair or uniform mutation, loss of fitness on changed rows, evaluation in row order) is in the model and diffed bit-exactly against BaseSEA.run with recorded draws: seaOffspring_inBox — for SEA / SEAWithCrossover / SEAWithAdaptiveMutation every offspring genome lies inside the box whatever the crossover produced and whatever noise was drawn (GAStyleSEA keeps crossover results and uniform draws unrepaired: EnvBox, monitored).'
+LEVEL_TEXT = 'Theorem: in every state reachable in the tree model every objective invocation lies in its level box (all configs, engines, seeds, event sequences); kernel theorems: apply_bounds result in box for every input and rounding function, rejection loop returns only in-box points. Tie: trace refinement (the model rejects an out-of-box invocation at that event) + bit-exact apply_bounds correspondence (C17) + direct monitor of all invocations, stored genomes and seeds. NEW: C01_stored_in_box — in every reachable state every stored individual that was obtained from the objective lies inside the box of its deme level (it is backed by a logged invocation, C02_stored_is_objective_value, and every logged invocation is in the box, C01_run); the only other stored individuals are sentinel carriers of refused requests and a local deme starting point (its seed). ENGINE LEVEL (Model/Engine.lean, Props/EngineDE.lean): one whole generation of DE.run / SHADE.run is in the model, deterministic given the generator draws (donor arithmetic in binary64, reflect repair, crossover mask incl. the row-zeroing quirk, fitness carry-over, which rows are evaluated, replacement), and is diffed bit-exactly against the real engines with recorded draws: deGen_trials_inBox / shadeGen_trials_inBox — parents inside the box imply every trial genome inside the box, for all draws, scaling factors, crossover probabilities, archives and rounding functions (no EnvBox assumption for DE / SHADE). SEA FAMILY (Engine.seaOffspring, Props/EngineSEA.lean): one pass of the variational pipeline (tournament = first best contestant, arithmetic crossover in binary64, Gaussian mutation with toroidal repair or uniform mutation, loss of fitness on changed rows, evaluation in row order) is in the model and diffed bit-exactly against BaseSEA.run with recorded draws: seaOffspring_inBox — for SEA / SEAWithCrossover / SEAWithAdaptiveMutation every offspring genome lies inside the box whatever the crossover produced and whatever noise was drawn (GAStyleSEA keeps crossover results and uniform draws unrepaired: EnvBox, monitored). LHS / SOBOL SCALING (Props/C01Affine.lean): affine_inBox — fl(lo + fl(u*fl(hi-lo))) lies in [lo, hi] for every rounding function that is monotone, exact on 0 and idempotent, every representable box and every unit sample whose product with a rounded-up range does not round back up to the range (the one binary64-specific fact, not proved for F64.rnd: validated by the bit-exact differential of LHSDeme.run / SobolDeme.run with adversarial samples 1-2^-53, 1-2^-52, ... on every run).'
 LEVEL_NOTE = 'Trusted: Lean kernel + standard axioms; the hand-written tree model (Tree.step) is tied to DemeTree.run by trace refinement on sampled runs (every run is re-executed by the model, dumps and sprout stages diffed); numerical engines (NumPy RNG, cma, scipy), objective values and user-defined stop-condition verdicts are environment; monitors trusted as failing-input search. EnvBox: points proposed by cma.ask, L-BFGS-B and np.random.uniform / qmc samplers are assumed in the box and monitored on every traced run.'
 TECHNIQUE = "trace refinement against the Lean tree model (Tree.step re-executes real runs) + direct monitors"
 RULE = "case = one traced run of a random configuration (1-3 levels, engine per level from the full list, every shipped GSC/LSC kind plus user-defined ones, both stock sprout mechanisms and user-composed chains, hibernation on/off, both directions, decimal boxes, optional cutoff/precision/stats wrappers, shared or per-level problems); non-trivial = run with >= 2 demes and >= 2 metaepochs; distinct by configuration hash"
@@ -38,6 +38,83 @@ def witness_d18():
     return sl
 
 
+def slice_affine(ctx, rng, n):
+    """LHSDeme.run / SobolDeme.run with the sampler replaced by adversarial unit samples (a public attribute of
+    the deme): the scaled genomes against `Repair.affine F64.rnd`, bit for bit, and inside the box"""
+    import numpy as np
+    from pyhms.config import LHSLevelConfig, SobolLevelConfig, TreeConfig
+    from pyhms.core.problem import FunctionProblem
+    from pyhms.sprout import get_simple_sprout
+    from pyhms.stop_conditions import DontStop, MetaepochLimit
+    from pyhms.tree import DemeTree
+
+    from ..common import Slice, fr, run_driver
+
+    sl = Slice("LHS / Sobol affine scaling vs Repair.affine (adversarial unit samples, bit-exact)")
+    edge = [np.nextafter(1.0, 0.0), 1.0 - 2.0**-52, 1.0 - 2.0**-51, 0.0, 2.0**-53, 0.5, 1.0 - 2.0**-30, np.nextafter(0.5, 1.0)]
+    lines, metas = [], []
+    for _ in range(n):
+        d = int(rng.integers(2, 4))
+        kind = int(rng.integers(0, 4))
+        if kind == 0:
+            box = [(-0.1, 0.2), (-0.3, 0.6), (0.1, 0.7)][:d]
+        elif kind == 1:
+            lo = rng.uniform(-5, 0, d)
+            box = [(float(a), float(a + w)) for a, w in zip(lo, rng.uniform(1e-3, 9, d))]
+        elif kind == 2:
+            lo = rng.uniform(-1, 1, d) * 10.0 ** rng.integers(-6, 7, d).astype(float)
+            box = [(float(a), float(a + abs(a) * w + 1e-12)) for a, w in zip(lo, rng.uniform(1e-9, 2, d))]
+        else:
+            box = [(float(a), float(np.nextafter(a, np.inf) if rng.random() < 0.3 else a + 2.0 ** -int(rng.integers(1, 60)))) for a in rng.uniform(-3, 3, d)]
+        bounds = np.array(box, dtype=float)
+        if not np.all(bounds[:, 0] < bounds[:, 1]):
+            continue
+        n_pop = 6
+        U = rng.random((n_pop, d))
+        for i in range(n_pop):
+            for j in range(d):
+                if rng.random() < 0.5:
+                    U[i, j] = edge[int(rng.integers(len(edge)))]
+        seen = []
+        prob = FunctionProblem(lambda x: (seen.append(np.array(x, dtype=float)) or 0.0), maximize=False, bounds=bounds)
+        cls = LHSLevelConfig if rng.random() < 0.5 else SobolLevelConfig
+        cfg = TreeConfig([cls(problem=prob, pop_size=8 if cls is SobolLevelConfig else n_pop, lsc=DontStop())], MetaepochLimit(3), get_simple_sprout(1.0), options={"random_seed": 1})
+        tree = DemeTree(cfg)
+        root = tree.root
+        root._pop_size = n_pop
+
+        class S:
+            def random(self, k, U=U):
+                return U[:k].copy()
+
+        root.sampler = S()
+        seen.clear()
+        tree.run_step()
+        got = [tuple(float(t) for t in i.genome) for i in root.history[-1]]
+        for i, g in enumerate(got):
+            for j, x in enumerate(g):
+                lo, hi = box[j]
+                lines.append(f"affine {fr(lo)} {fr(hi)} {fr(U[i, j])}")
+                metas.append((fr(x), lo, hi, float(U[i, j]), x, cls.__name__))
+                if not (lo <= x <= hi):
+                    sl.violations.append({"signature": "C01/eval-outside-box/affine-scaling", "detail": f"{cls.__name__}: unit sample {float(U[i, j])!r} on [{lo!r}, {hi!r}] was scaled to {x!r}, outside the box", "replay": {"box": box, "u": float(U[i, j])}})
+        for x in seen:
+            if np.any(x < bounds[:, 0]) or np.any(x > bounds[:, 1]):
+                sl.violations.append({"signature": "C01/eval-outside-box/affine-scaling", "detail": f"{cls.__name__}: objective invoked at {x.tolist()} outside {box}", "replay": {"box": box}})
+                break
+    got = run_driver(lines)
+    for line, g, (e, lo, hi, u, x, name) in zip(lines, got, metas):
+        sl.cases += 1
+        sl.count(name.replace("LevelConfig", ""))
+        if u > 1.0 - 2.0**-40 or u == 0.0:
+            sl.nontrivial.add(hash(line))
+        if g != e:
+            sl.disagreements.append({"op": line, "impl": e, "model": g})
+    if lines:
+        sl.sample({"op": lines[0], "model": got[0]})
+    return sl
+
+
 def run(ctx):
     from .. import engine
 
@@ -53,6 +130,7 @@ def run(ctx):
         runs.monitor_batch(ctx, PID, ctx.size(40, 400), salt=75, name="traced-runs-monitor-C01(local leaves with BFGS / CG / SLSQP on a slope towards a corner)", force=_unbounded_local),
         engine.slice_engine(ctx, ctx.rng(81), ctx.size(250, 3000), only="C01/"),
         engine.slice_sea(ctx, ctx.rng(83), ctx.size(400, 5000), only="C01/"),
+        slice_affine(ctx, ctx.rng(85), ctx.size(150, 2000)),
     ]
 
 
